@@ -15,6 +15,11 @@ pub struct PoolCfg {
     /// If set, each worker slot records the index it is about to run at offset `slot * 8`, so a
     /// parent process can tell which runs were in flight when the process died.
     pub progress: Option<File>,
+    /// If set (2 entries per worker slot): `[2*slot]` = index being run + 1 (0 = between runs),
+    /// `[2*slot+1]` = wall milliseconds since `epoch` when it started. For a hang watchdog; wall
+    /// time never reaches a simulated run.
+    pub beats: Option<std::sync::Arc<Vec<AtomicU64>>>,
+    pub epoch: std::time::Instant,
 }
 
 pub fn run_parallel<A, M, F>(start: u64, count: u64, cfg: &PoolCfg, stop: &AtomicBool, make: M, f: F) -> Vec<A>
@@ -56,7 +61,14 @@ where
                                         if let Some(p) = &cfg.progress {
                                             let _ = p.write_at(&i.to_le_bytes(), (slot as u64) * 8);
                                         }
+                                        if let Some(b) = &cfg.beats {
+                                            b[2 * slot + 1].store(cfg.epoch.elapsed().as_millis() as u64, Ordering::Relaxed);
+                                            b[2 * slot].store(i + 1, Ordering::Release);
+                                        }
                                         f(i, &mut acc);
+                                        if let Some(b) = &cfg.beats {
+                                            b[2 * slot].store(0, Ordering::Release);
+                                        }
                                         done += 1;
                                     }
                                 }
